@@ -167,11 +167,24 @@ Definition exit_code (d : diag) : nat :=
   | _ => 1
   end.
 
-(* places where the Go code can raise a runtime panic.  After the repairs 29dcb84, b905249,
-   1762519 and 1e0ce7d (TestFile on a file without package clause; unnamed parameters and
-   receivers, bodiless declarations and accessor arities in the mapper) none is known: the type
-   is empty, [Panic] stays in [stop] so that a panic of the binary has something to disagree with *)
-Inductive psite := .
+(* The index expressions and pointer dereferences of the transcribed Go functions.  Each of
+   them is written as a partial operation ([nth_or_panic], [deref]) AFTER the test that guards it
+   in the Go source (e.g. `len(f.Names) == 0` before `f.Names[0]`, `tf == nil` before
+   `tf.Name()`); that every one is unreachable is proved (C18_always_a_deliberate_exit), so a
+   guard removed from the model, like one removed from the code, shows.  Panics of library code
+   (go/types, packages.Load, text/template) have no site here: their absence is sampled only. *)
+Inductive psite :=
+| PTestFilePos          (* shoot/generatorbase.go TestFile: tf.Name() with tf = Fset.File(file.Pos()) *)
+| PRestEmbedPkg         (* restclient/generator.go testNode: obj.Pkg().Path() *)
+| PRestResultIndex      (* restclient/cook.go: results[n-2], results[n-1], results[0] *)
+| PManualRecv0          (* mapper/manual.go: fn.Recv.List[0] *)
+| PManualParam0         (* mapper/manual.go: fn.Type.Params.List[0] *)
+| PFirstName            (* mapper/manual.go firstName: f.Names[0] *)
+| PBodyWalk             (* ast.Inspect on funcDecl.Body / fn.Body (nil *ast.BlockStmt) *)
+| PCtorResult0          (* mapper/ctor.go: fn.Type.Results.List[0] *)
+| PAccRecv0             (* mapper/methods.go: fn.Recv.List[0] *)
+| PAccParam0            (* mapper/methods.go: params.List[0] *)
+| PAccResult0.          (* mapper/methods.go: results.List[0] *)
 
 (* unbounded recursions *)
 Inductive lsite :=
@@ -203,6 +216,14 @@ Fixpoint each {A} (f : A -> res unit) (l : list A) : res unit :=
   | [] => Ok tt
   | x :: r => do_ f x; each f r
   end.
+
+(* l[n]: a Go index expression *)
+Definition nth_or_panic {A} (s : psite) (n : nat) (l : list A) : res A :=
+  match nth_error l n with Some x => Ok x | None => Stop (Panic s) end.
+
+(* p.f / p.m() through a pointer that may be nil *)
+Definition deref {A} (s : psite) (o : option A) : res A :=
+  match o with Some x => Ok x | None => Stop (Panic s) end.
 
 (* ----------------------------------------------------- abstract Go syntax *)
 
@@ -620,6 +641,16 @@ Fixpoint find_tspec (n : string) (l : list tspec) : option tspec :=
 Definition test_file (fl : flags) (f : file) : bool :=
   (fl_file fl =? "") || (negb (f_pkg f =? "") && (f_name f =? fl_file fl)).
 
+(* the same, step by step: Fset.File(file.Pos()) is nil for a file without package clause *)
+Definition file_pos (f : file) : option string := if f_pkg f =? "" then None else Some (f_name f).
+Definition test_file_m (fl : flags) (f : file) : res bool :=
+  if fl_file fl =? "" then Ok true
+  else match file_pos f with
+       | None => Ok false                                   (* if tf == nil { return false } *)
+       | Some _ => do name <- deref PTestFilePos (file_pos f);     (* tf.Name() *)
+                   Ok (name =? fl_file fl)
+       end.
+
 Definition is_struct (t : tspec) : bool := match ts_body t with BStruct _ => true | _ => false end.
 
 Definition int_names : list string :=
@@ -845,6 +876,31 @@ Definition rest_test (T : string) (t : tspec) : bool :=
   | _ => false
   end.
 
+(* the loop of testNode over the embedded elements, with its dereference: what obj.Pkg() is *)
+Definition embed_pkg (e : iembed) : option bool :=        (* Some true: the package is shoot and the name RestClient *)
+  match e with EmRest => Some true | EmNamed => Some false | EmUniverse => None | EmOther => Some false end.
+Definition rest_item_m (it : iitem) : res bool :=
+  match it with
+  | IMethod _ _ _ _ => Ok false                             (* len(field.Names) > 0: continue *)
+  | IEmbed EmOther => Ok false                              (* the assertion to types.Named fails: continue *)
+  | IEmbed e =>
+      match embed_pkg e with
+      | None => Ok false                                    (* obj.Pkg() == nil: continue *)
+      | Some _ => deref PRestEmbedPkg (embed_pkg e)         (* obj.Pkg().Path() == SelfPkgPath && ... *)
+      end
+  end.
+Fixpoint rest_items_m (l : list iitem) : res bool :=
+  match l with
+  | [] => Ok false
+  | it :: r => do b <- rest_item_m it; if b then Ok true else rest_items_m r
+  end.
+Definition rest_test_m (T : string) (t : tspec) : res bool :=
+  if negb ((T =? "") || (ts_name t =? T)) then Ok false
+  else match ts_body t with
+       | BIface items => rest_items_m items
+       | _ => Ok false
+       end.
+
 (* isStructType(name, file): the first package-level type spec of that name in
    the SAME file decides *)
 Definition is_struct_type (name : string) (f : file) : bool :=
@@ -938,18 +994,17 @@ Definition rest_method (baddir : bool) (fs : list file) (f : file) (doc : mdoc) 
       let n := List.length vals in
       do_ guard (Nat.leb 2 n) DRestFewResults;
       do_ guard (Nat.leb n 3) DRestManyResults;
-      do_ guard (is_http_response (snd (nth (n - 2) vals ("", TLit)))) DRestSecondToLast;
-      do_ guard (is_error_id (snd (nth (n - 1) vals ("", TLit)))) DRestLast;
+      do v2 <- nth_or_panic PRestResultIndex (n - 2) vals;               (* results[n-2] *)
+      do_ guard (is_http_response (snd v2)) DRestSecondToLast;
+      do v1 <- nth_or_panic PRestResultIndex (n - 1) vals;               (* results[n-1] *)
+      do_ guard (is_error_id (snd v1)) DRestLast;
       if Nat.eqb n 3 then
-        match vals with
-        | (name, t) :: _ =>
-            do_ guard (name =? "") DRestNamedResults;
-            match t with
-            | TStar _ | TArr _ | TMap _ _ => Ok tt
-            | TArrN _ => fatal DRestArrayReturn
-            | _ => fatal DRestReturnType
-            end
-        | [] => Ok tt
+        do v0 <- nth_or_panic PRestResultIndex 0 vals;                   (* results[0] *)
+        do_ guard (fst v0 =? "") DRestNamedResults;
+        match snd v0 with
+        | TStar _ | TArr _ | TMap _ _ => Ok tt
+        | TArrN _ => fatal DRestArrayReturn
+        | _ => fatal DRestReturnType
         end
       else Ok tt
   end.
@@ -964,7 +1019,8 @@ Fixpoint rest_walk (baddir : bool) (fs : list file) (T : string) (f : file) (l :
   match l with
   | [] => Ok found
   | (t, _) :: r =>
-      if rest_test T t then
+      do hit <- rest_test_m T t;
+      if hit then
         match ts_body t with
         | BIface items => do_ rest_iface baddir fs f items; rest_walk baddir fs T f r true
         | _ => rest_walk baddir fs T f r found
@@ -1021,10 +1077,116 @@ Definition funcs_of (files : list file) : list (file * fdecl) :=
 Definition no_results (f : fdecl) : bool :=
   match fn_results f with None => true | Some [] => true | Some _ => false end.
 
-(* parseCtors (constructor NewT of a shoot-new type) and parseMethods/parseGetSetMethods (its
-   accessors) have no exit: an unnamed constructor parameter is bound to no field, a declaration
-   without body binds nothing, SetX without exactly one parameter and X() without exactly one
-   result are skipped.  They are therefore not part of this model. *)
+(* firstName: the name a parameter or receiver is declared with, "" when it is unnamed *)
+Definition first_name (p : param) : res string :=
+  match pa_names p with
+  | [] => Ok ""                                             (* if len(f.Names) == 0 { return "" } *)
+  | l => nth_or_panic PFirstName 0 l                        (* f.Names[0].Name *)
+  end.
+
+(* findAssignedFieldPaths / extractParamToFieldMap: ast.Inspect(body, ...) after the nil test *)
+Definition walk_body (b : option (list ldecl)) : res unit :=
+  match b with
+  | None => Ok tt                                           (* if fn.Body == nil { return } *)
+  | Some _ => do_ deref PBodyWalk b; Ok tt
+  end.
+
+(* types.AssignableTo(T, interface{ ShootNew() }): a method ShootNew() with a
+   value receiver declared on T (promotion through embedded fields is outside
+   the grammar) *)
+Definition implements_shootnew (files : list file) (T : string) : bool :=
+  existsb (fun '(_, f) =>
+             (fn_name f =? "ShootNew") &&
+             match fn_recv f with
+             | Some [r] => match pa_type r with TId n => n =? T | _ => false end
+             | _ => false
+             end &&
+             match fn_params f with [] => true | _ => false end && no_results f) (funcs_of files).
+
+(* mapper.parseCtors(pkg, theTyp, typName): no exit; the index expressions after their tests *)
+Definition map_ctors (files : list file) (T : string) : res unit :=
+  each (fun '(_, f) =>
+          match fn_recv f with
+          | Some _ => Ok tt
+          | None =>
+              if negb (fn_name f =? "New" ++ T) then Ok tt else
+              match fn_results f with
+              | None => Ok tt                               (* fn.Type.Results == nil *)
+              | Some rs =>
+                  if negb (Nat.eqb (List.length rs) 1) then Ok tt else   (* len == 0 || len > 1: continue *)
+                  do r <- nth_or_panic PCtorResult0 0 rs;                (* fn.Type.Results.List[0] *)
+                  match pa_type r with
+                  | TStar (TId n) =>
+                      if negb (n =? T) then Ok tt else
+                      match fn_params f with
+                      | [] => Ok tt
+                      | ps => do_ walk_body (fn_body f);                 (* extractParamToFieldMap(fn) *)
+                              each (fun p => do_ first_name p; Ok tt) ps  (* pname := firstName(p) *)
+                      end
+                  | _ => Ok tt
+                  end
+              end
+          end) (funcs_of files).
+
+(* names of all fields of a struct, promoted ones included (parseFields flattens
+   the embedded structs of the package) *)
+Fixpoint flat_names (fuel : nat) (tops : list tspec) (fs : list field) : list string :=
+  match fuel with
+  | O => []
+  | S k => flat_map (fun f => if is_embedded f
+                              then match embedded_struct [] tops (fd_type f) with
+                                   | Some (fs', _) => flat_names k tops fs'
+                                   | None => []
+                                   end
+                              else fd_names f) fs
+  end.
+
+(* g.unexportedFields after parseFields(T) *)
+Definition unexported_fields (files : list file) (T : string) : list string :=
+  let tops := top_tspecs files in
+  match find_tspec T tops with
+  | Some t => match ts_body t with
+              | BStruct fs => filter (fun n => negb (is_exported n)) (flat_names (S (List.length tops)) tops fs)
+              | _ => []
+              end
+  | None => []
+  end.
+
+(* mapper.parseGetSetMethods: no exit; SetX needs exactly one parameter, X() exactly one result *)
+Definition map_accessors (files : list file) (T : string) : res unit :=
+  let ufs := unexported_fields files T in
+  match ufs with
+  | [] => Ok tt
+  | _ =>
+    let super := (map to_pascal_case ufs ++ map (fun n => ("Set" ++ to_pascal_case n)%string) ufs)%list in
+    each (fun '(_, f) =>
+            match fn_recv f with
+            | None => Ok tt
+            | Some [] => Ok tt                                   (* len(fn.Recv.List) == 0: continue *)
+            | Some rl =>
+                if negb (mem (fn_name f) super) then Ok tt else
+                do r <- nth_or_panic PAccRecv0 0 rl;              (* fn.Recv.List[0].Type *)
+                match (match pa_type r with TStar x => x | x => x end) with
+                | TId n =>
+                    if negb (n =? T) then Ok tt else
+                    if String.prefix "Set" (fn_name f) then
+                      if negb (no_results f) then Ok tt
+                      else if negb (Nat.eqb (List.length (fn_params f)) 1) then Ok tt   (* len(params.List) != 1 *)
+                      else do_ nth_or_panic PAccParam0 0 (fn_params f); Ok tt          (* params.List[0].Type *)
+                    else
+                      match fn_params f with
+                      | _ :: _ => Ok tt
+                      | [] =>
+                          match fn_results f with
+                          | None => Ok tt
+                          | Some rs => if negb (Nat.eqb (List.length rs) 1) then Ok tt  (* len(results.List) != 1 *)
+                                       else do_ nth_or_panic PAccResult0 0 rs; Ok tt    (* results.List[0].Type *)
+                          end
+                      end
+                | _ => Ok tt
+                end
+            end) (funcs_of files)
+  end.
 
 (* isWriteMethod / isReadMethod *)
 Definition reserved (keys : list string) (key name : string) : bool :=
@@ -1038,42 +1200,47 @@ Definition is_dest_type (f : file) (D : string) (t : texpr) : bool :=
   | _ => false
   end.
 
-(* mapper.parseManual: state = (write method seen, read method seen) *)
-Fixpoint map_manual (key T D : string) (l : list (file * fdecl)) (w r : bool) : res unit :=
+(* one function declaration in mapper.parseManual; state = (write method seen, read method seen) *)
+Definition manual_step (key T D : string) (f : file) (fd : fdecl) (st : bool * bool) : res (bool * bool) :=
+  let '(w, r) := st in
+  match fn_recv fd with
+  | None => Ok st                                           (* fn.Recv == nil *)
+  | Some [] => Ok st                                        (* len(fn.Recv.List) == 0: continue *)
+  | Some rl =>
+      let is_write := reserved ["to"; "write"] key (fn_name fd) in
+      let is_read := negb is_write && reserved ["from"; "read"] key (fn_name fd) in
+      if negb is_write && negb is_read then Ok st else
+      do recv <- nth_or_panic PManualRecv0 0 rl;             (* recv := fn.Recv.List[0] *)
+      match pa_type recv with
+      | TStar x =>
+          if negb (match x with TId n => n =? T | _ => false end) then Ok st else
+          if negb (Nat.eqb (List.length (fn_params fd)) 1) then Ok st else    (* warning: incorrect signature *)
+          if negb (no_results fd) then Ok st else
+          do p <- nth_or_panic PManualParam0 0 (fn_params fd);  (* param := fn.Type.Params.List[0] *)
+          let is_ptr := match pa_type p with TStar _ => true | _ => false end in
+          let base := match pa_type p with TStar x => x | x => x end in
+          let is_same := is_dest_type f D base in
+          if is_write then
+            if negb (is_same && is_ptr) then fatal DMapWriteParam
+            else if w then fatal DMapDupWrite
+            else do_ first_name p;                           (* findAssignedFieldPaths(fn, firstName(param)) *)
+                 do_ walk_body (fn_body fd);
+                 Ok (true, r)
+          else
+            if negb is_same then fatal DMapReadParam
+            else if r then fatal DMapDupRead
+            else do_ first_name recv;                        (* findAssignedFieldPaths(fn, firstName(recv)) *)
+                 do_ walk_body (fn_body fd);
+                 Ok (w, true)
+      | x =>
+          if match x with TId n => n =? T | _ => false end then fatal DMapPtrRecv else Ok st
+      end
+  end.
+
+Fixpoint map_manual (key T D : string) (l : list (file * fdecl)) (st : bool * bool) : res unit :=
   match l with
   | [] => Ok tt
-  | (f, fd) :: rest =>
-      let continue_ := map_manual key T D rest w r in
-      match fn_recv fd with
-      | None => continue_
-      | Some [] => continue_
-      | Some (recv :: _) =>
-          let is_write := reserved ["to"; "write"] key (fn_name fd) in
-          let is_read := negb is_write && reserved ["from"; "read"] key (fn_name fd) in
-          if negb is_write && negb is_read then continue_ else
-          match pa_type recv with
-          | TStar x =>
-              if negb (match x with TId n => n =? T | _ => false end) then continue_ else
-              match fn_params fd with
-              | [p] =>
-                  if negb (no_results fd) then continue_ else
-                  let is_ptr := match pa_type p with TStar _ => true | _ => false end in
-                  let base := match pa_type p with TStar x => x | x => x end in
-                  let is_same := is_dest_type f D base in
-                  if is_write then
-                    if negb (is_same && is_ptr) then fatal DMapWriteParam
-                    else if w then fatal DMapDupWrite
-                    else map_manual key T D rest true r     (* an unnamed parameter / a missing body assigns nothing *)
-                  else
-                    if negb is_same then fatal DMapReadParam
-                    else if r then fatal DMapDupRead
-                    else map_manual key T D rest w true
-              | _ => continue_                        (* warning: incorrect signature *)
-              end
-          | x =>
-              if match x with TId n => n =? T | _ => false end then fatal DMapPtrRecv else continue_
-          end
-      end
+  | (f, fd) :: rest => do st' <- manual_step key T D f fd st; map_manual key T D rest st'
   end.
 
 Definition map_make (fo : foreign) (fl : flags) (ld : loaded) (T : string) : res bool :=
@@ -1082,9 +1249,15 @@ Definition map_make (fo : foreign) (fl : flags) (ld : loaded) (T : string) : res
   do_ guard s DMapSrcNotExists;
   do d <- map_parse_fields fo (ld_dest ld) D;
   if negb d then (if fl_specified fl then fatal DMapDestNotExists else Ok false) else
+  (* parseCtors *)
+  do_ (if implements_shootnew (ld_files ld) T then map_ctors (ld_files ld) T else Ok tt);
+  do_ (if implements_shootnew (ld_dest ld) D then map_ctors (ld_dest ld) D else Ok tt);
+  (* parseMethods *)
+  do_ (if implements_shootnew (ld_files ld) T then map_accessors (ld_files ld) T else Ok tt);
+  do_ (if implements_shootnew (ld_dest ld) D then map_accessors (ld_dest ld) D else Ok tt);
   (* parseManual *)
   let key := if fl_alias fl =? "" then ld_destname ld else fl_alias fl in
-  do_ map_manual key T D (funcs_of (ld_files ld)) false false;
+  do_ map_manual key T D (funcs_of (ld_files ld)) (false, false);
   Ok true.
 
 Definition map_list (fl : flags) (ld : loaded) : list string :=
@@ -1133,7 +1306,15 @@ Definition confirm_types (fl : flags) (ld : loaded) : res (list string * list (s
     do_ each (fun T => if fl_file fl =? "" then Ok tt
                        else guard (fl_file fl =? go_file T (ld_files ld)) DNotInFile) (fl_types fl);
     Ok (fl_types fl, map (fun T => (T, go_file T (ld_files ld))) (fl_types fl))
-  else Ok (list_types fl ld, []).
+  else
+    (* ListTypes: g.TestFile(f) for every file, and for `rest` testNode on every type spec of the tested files *)
+    do_ each (fun f => do ok <- test_file_m fl f;
+                       if ok then match fl_sub fl with
+                                  | CRest => each (fun x => do_ rest_test_m "" (fst x); Ok tt) (file_tspecs f)
+                                  | _ => Ok tt
+                                  end
+                       else Ok tt) (ld_files ld);
+    Ok (list_types fl ld, []).
 
 Definition render_of (i : input) (T : string) : rclass :=
   match assoc T (i_render i) with Some r => r | None => ROk end.
@@ -1376,6 +1557,21 @@ Definition ordered (tops : list tspec) : bool := specs_ok tops 0 tops.
 
 Definition is_file (e : entry) : bool := match e with EFile _ => true | _ => false end.
 Definition files_only (d : list (string * entry)) : bool := forallb (fun x => is_file (snd x)) d.
+
+(* The two ways a directory state can make a run fail AFTER it wrote something (open findings
+   K_rename_fail_after_write, K_clean_unreadable_after_write), entry by entry:
+   a directory at the name of an output; when the all-in-one cleanup runs, an entry matching
+   *.shoot<cmd>*.go that is not a regular file. *)
+Definition entry_ok (outs : list string) (fl : flags) (ld : loaded) (x : string * entry) : bool :=
+  negb (mem (fst x) outs && match snd x with EDir => true | _ => false end) &&
+  (fl_sep fl || (ld_allinone ld =? "") || negb (glob_match (fl_sub fl) (fst x)) || is_file (snd x)).
+
+(* the guard of C18_nonzero_exit_changes_nothing: decided from the result of the read-only phases *)
+Definition state_ok (i : input) : bool :=
+  match analyse i with
+  | Ok (fl, ld, outs) => forallb (entry_ok outs fl ld) (i_extra i)
+  | Stop _ => true
+  end.
 
 (* no embedded field of a struct of this scope names an imported type *)
 Definition sel_free (tops : list tspec) : bool :=
